@@ -157,13 +157,59 @@ fn input(fi: usize) -> BoxedStrategy<(String, String)> {
         30 => fragment(fi).prop_map(|s| ("fragment".to_string(), s)),
         14 => strgen::mutated(fi).prop_map(|s| ("malformed".to_string(), s)),
         4 => strgen::soup(fi).prop_map(|s| ("soup".to_string(), s)),
+        5 => strgen::nests(fi).prop_map(|s| ("nests".to_string(), s)),
         4 => Just(("empty".to_string(), String::new())),
     ]
     .boxed()
 }
 
+/// a long valid input followed by a SHORT one that ends in the first characters of a keyword,
+/// aligned so that whatever the earlier input left behind at those positions would complete the
+/// keyword (stale buffers / cursors must not matter)
+fn aligned_pair(fi: usize) -> BoxedStrategy<Vec<(String, String)>> {
+    let f = fmts::e(fi);
+    let small = gen::TermOpts { depth: 2, size: 6, ..gen::TermOpts::main(fi) };
+    (gen::sentence_with(gen::term(small)), any::<u16>(), 1usize..=3, gen::name_char(fi, gen::NameProfile::Main))
+        .prop_map(move |(s, pick, keep, filler)| {
+            let long = f.format_sentence(&build_sentence(&s));
+            let chars: Vec<char> = long.chars().collect();
+            // all positions where some keyword starts
+            let kws: Vec<Vec<char>> = fmts::e_keywords(fi).iter().filter(|k| k.chars().count() >= 2).map(|k| k.chars().collect()).collect();
+            let mut hits: Vec<(usize, usize)> = vec![];
+            for i in 0..chars.len() {
+                for k in &kws {
+                    if chars[i..].starts_with(k) {
+                        hits.push((i, k.len()));
+                    }
+                }
+            }
+            let short: String = if hits.is_empty() {
+                "a".to_string()
+            } else {
+                let (at, len) = hits[((pick as usize) * hits.len()) >> 16];
+                let keep = keep.min(len - 1);
+                let mut t: String = std::iter::repeat(filler).take(at).collect();
+                if t.is_empty() {
+                    t.push(filler);
+                }
+                t.extend(&chars[at..at + keep]);
+                t
+            };
+            vec![("sentence".to_string(), long), ("aligned-tail".to_string(), short)]
+        })
+        .boxed()
+}
+
 pub fn strategy() -> BoxedStrategy<Case> {
-    gen::fmt_and(|fi| vec(input(fi), 1..=8).boxed()).prop_map(|(fi, inputs)| Case { fi, inputs }).boxed()
+    gen::fmt_and(|fi| {
+        prop_oneof![
+            88 => vec(input(fi), 1..=8),
+            12 => (vec(input(fi), 0..=2), aligned_pair(fi), vec(input(fi), 0..=1)).prop_map(|(mut a, b, c)| { a.extend(b); a.extend(c); a }),
+        ]
+        .boxed()
+    })
+    .prop_map(|(fi, inputs)| Case { fi, inputs })
+    .boxed()
 }
 
 pub fn streams() -> Vec<Box<dyn AnyStream>> {
